@@ -99,6 +99,14 @@ fn register_into(
                     StaticData::GenOverWriteC => add_static!(SGenOverWriteC),
                     StaticData::DerTupleAC => add_static!(SDerTupleAC),
                     StaticData::DerMacWriteC => add_static!(SDerMacWriteC),
+                    StaticData::TwinW1 | StaticData::TwinW2 | StaticData::TwinR2 => {
+                        let k = &twin_kinds()[match st.data {
+                            StaticData::TwinW1 => 0,
+                            StaticData::TwinW2 => 1,
+                            _ => 2,
+                        }];
+                        catch_unwind(AssertUnwindSafe(|| (k.add)(b, id, st.time, ctx, &st.name, &deps)))
+                    }
                 }
             }
             Op::Batch(bs) => {
